@@ -77,6 +77,39 @@ theorem csv_file_roundtrip (o : Opts) (g : o.Good) (n : Nat) (hn : 0 < n) (names
           · exact h r hr)
     simpa [writeCsv] using this
 
+/-! ## COPY TO replaces the target file -/
+
+/-- After `COPY TO path` the path holds exactly the export, WHATEVER it held before (nothing, an
+earlier longer export, arbitrary bytes), and no other path changes. -/
+theorem copy_to_replaces (fs : Fs) (path : String) (o : Opts) (names : List Bytes)
+    (rows : List (List Bytes)) :
+    (copyToFs fs path o names rows) path = some (writeFile o names rows) ∧
+    ∀ p, p ≠ path → (copyToFs fs path o names rows) p = fs p := by
+  constructor
+  · simp [copyToFs, Fs.put]
+  · intro p hp; simp [copyToFs, Fs.put, hp]
+
+/-- Export then import over HISTORIES: for every previous state `fs` of the file system — in
+particular every previous content of `path` — `COPY FROM path` after `COPY TO path` returns the
+exported records (HEADER or not, any escape). -/
+theorem csv_file_roundtrip_any_previous (fs : Fs) (path : String) (o : Opts) (g : o.Good) (n : Nat)
+    (hn : 0 < n) (names : List Bytes) (hnames : names.length = n) (rows : List (List Bytes))
+    (h : ∀ r ∈ rows, r.length = n) :
+    copyFromFs (copyToFs fs path o names rows) path o = some rows := by
+  simp only [copyFromFs, (copy_to_replaces fs path o names rows).1, Option.bind_some]
+  exact csv_file_roundtrip o g n hn names hnames rows h
+
+/-- a second, smaller export to the same path leaves exactly the second table there -/
+theorem reexport_smaller (fs : Fs) (path : String) (o : Opts) (g : o.Good) (n : Nat) (hn : 0 < n)
+    (names : List Bytes) (hnames : names.length = n) (rowsA rowsB : List (List Bytes))
+    (hB : ∀ r ∈ rowsB, r.length = n) :
+    copyFromFs (copyToFs (copyToFs fs path o names rowsA) path o names rowsB) path o = some rowsB :=
+  csv_file_roundtrip_any_previous _ path o g n hn names hnames rowsB hB
+
+example : copyFromFs (copyToFs (fun _ => some [115, 116, 97, 108, 101, 10, 111, 108, 100]) "p" {} [[99]] [[[49]]]) "p" {} =
+    some [[[49]]] :=
+  csv_file_roundtrip_any_previous _ "p" {} ⟨by decide, by decide, by decide⟩ 1 (by decide) [[99]] rfl [[[49]]] (by decide)
+
 /-! ## tables -/
 
 /-- a cell whose text parses back to itself (C19's round trips; NULL ↦ empty field ↦ NULL) -/
